@@ -969,8 +969,11 @@ class PolygonalROI(VertexROIBase):
 
     def center(self):
         # centroid is more robust than mean, but
-        # for linear (1D) "polygons" centroid is not defined.
-        if self.area() == 0:
+        # for linear (1D) "polygons" centroid is not defined. The area of
+        # such polygons can differ from zero due to rounding, so we compare
+        # it to the square of the extent of the polygon.
+        extent_squared = np.ptp(self.vx) ** 2 + np.ptp(self.vy) ** 2
+        if self.area() <= 1e-12 * extent_squared:
             return self.mean()
         else:
             return self.centroid()
